@@ -16,8 +16,10 @@ import torch
 
 from core import Ctx, ToolFailure, Violation, err_name, ints
 from props import c16 as toy
+from props import c15_engine as eng
 
 PROP = "C15"
+EXTRA_LEAN_MODULES = ["DirectVerif.Props.C15Engine"]   # theorems about Model/C15Engine.lean (the code around the core)
 MANIFEST = {
     "text": "Lean 4 theorems: (directory machine) for EVERY well-formed save table (decidable wfSave: each final name only ever "
             "the target of a replace from its completely written, closed temporary; pointer replaced after the checkpoint "
@@ -25,55 +27,96 @@ MANIFEST = {
             "included), label, payload chunking and every crash point (any prefix of the file operations, last write cut "
             "anywhere) load('latest') returns what it returned before the save or the new checkpoint — never an error; "
             "save-then-load returns the saved label and state; 'latest' is the last completed save for every save sequence; "
-            "a full load restores every HasStateDict object (model, additional models, optimizer, lr_scheduler, scaler), "
-            "only_models leaves the training state alone, non-HasStateDict objects are not stored. (trainer machine, arbitrary model / loss / "
-            "optimiser / schedule) a clean stop after iteration t and resume at label+1, and a SIGINT inside any iteration "
-            "i >= 5 (kill path saves the pre-iteration state under i-1), continue on exactly the uninterrupted trajectory "
-            "(parameters, optimiser state, last_epoch hence all later learning rates, scaler); for i < 5 nothing is saved; "
-            "every history of processes ended by disappearance, SIGINT or a crash inside a checkpoint save ends in the "
-            "uninterrupted final state, for every k >= 1 provided each resume finds a 'latest' label t with (t+1) % k = 0 "
-            "(vacuous for k = 1); otherwise exactly: the resumed process continues from the uninterrupted state with an "
-            "empty accumulator and its first step uses div_(k) of the k-r post-resume gradients (misaligned_resume). Schedulers are closed forms of last_epoch (drop exactly at a milestone with its multiplicity, factor 1 from the warm-up "
-            "boundary on, linear warm-up monotone, cosine monotone whenever the uninterpreted cos term is); the scaler's "
-            "update() is part of the machine. Tied to the code by the translated "
-            "statement table of save (wfSave discharged by decide — a harmless reordering keeps the proof), translated resume / "
-            "kill-path / interval arithmetic and scheduler formulas, strace of a real save, real load('latest') on every "
-            "materialised crash state (incl. stale *.tmp), real save/load of object bundles (full / only_models / "
-            "checkpointable_objects / DataParallel), real schedulers checkpointed and resumed at every point of 1..60-iteration "
-            "schedules (thorough), and real Engine.train histories with real SIGINTs compared exactly with the model.",
+            "load(None) loads nothing, load('latest') = load(-1) (Engine.predict's default) = load(label) after a save, other "
+            "arguments are rejected; a full load restores every HasStateDict object (model, additional models, optimizer, "
+            "lr_scheduler, scaler), only_models / load_models_from_file leaves the training state alone, non-HasStateDict "
+            "objects are not stored; a model is never loaded partially (missing keys raise, for every module and file), "
+            "DataParallel / DistributedDataParallel wrappers are transparent because the constructor strips them from `model` "
+            "and from every *model key (witness: stripping only `model` breaks); save_to_disk=False never writes, and two "
+            "concurrent writers of a well-formed save can leave a corrupt 'latest' (witness) — why only rank 0 writes. "
+            "(trainer machine, arbitrary model / loss / optimiser / schedule) a clean stop after iteration t and resume at "
+            "label+1, and a SIGINT or RuntimeError inside any iteration i >= 5 (exit path saves the pre-iteration state under "
+            "i-1), continue on exactly the uninterrupted trajectory (parameters, optimiser state, last_epoch hence all later "
+            "learning rates, scaler); for i < 5 nothing is saved; every history of processes ended by disappearance, SIGINT "
+            "or a crash inside a checkpoint save ends in the uninterrupted final state, for every k >= 1 provided each "
+            "resume finds a 'latest' label t with (t+1) % k = 0 (vacuous for k = 1) — ALSO for the engine machine with "
+            "validation data, start_with_validation and mode-dependent additional models (validation ends with "
+            "models_training_mode(); the pinned `self.model.train()` is a proved violation witness); otherwise exactly: the "
+            "resumed process continues from the uninterrupted state with an empty accumulator, its first step uses div_(k) "
+            "of the k-r post-resume gradients, and on the integer toy it is off by exactly r at the end of that window for "
+            "every k >= 2 and every label (resume equal iff aligned); periodic checkpoints are never aligned when k divides "
+            "checkpoint_steps, two consecutive ones never both. Engine.train before the loop, for every well-formed "
+            "`if start_iter > 0 and initialization … elif initialization` chain: an initialization checkpoint only provides "
+            "model weights (optimiser, last_epoch, scaler, iteration counter fresh; validation forced), a resumed run ignores "
+            "it. Bookkeeping: the events of a resumed process are exactly the suffix of the uninterrupted schedule, the last "
+            "iteration is checkpointed / logged / validated exactly once, resuming a finished run does nothing. Schedulers "
+            "are closed forms of last_epoch (drop exactly at a milestone with its multiplicity, factor 1 from the warm-up "
+            "boundary on, linear warm-up monotone, cosine monotone whenever the uninterpreted cos term is); step() never "
+            "reads the optimiser's current lr, so restoring only the scheduler is wrong for exactly one iteration and a "
+            "chained scheduler would drift for ever (witness); the trainer's milestones range(step, total, step) are sorted; "
+            "the scaler's update() is part of the machine. Tied to the code by the translated statement table of save "
+            "(wfSave by decide — a harmless reordering keeps the proof), translated resume / kill-path / checkpoint / "
+            "validation / log interval arithmetic, scheduler formulas, 'latest' aliases, the initialization chain, the tail "
+            "of validation_loop, structural API facts (constructor unwraps, save guard, main-process-only writing, no "
+            "directory listing in load, missing keys raise, only_models) and the trainer's milestone expression; strace of a "
+            "real save, real load on every materialised crash state (incl. stale *.tmp) and for every argument form, real "
+            "save/load of object bundles and of modules with named parameters (wrappers, missing / unexpected keys, kwargs, "
+            "save_to_disk), real schedulers checkpointed and resumed at every point of 1..60-iteration schedules (thorough) and "
+            "into objects built with another learning rate, and real Engine.train histories (validation data, "
+            "initialization, start_with_validation, resume=False, finished runs, real SIGINTs, RuntimeErrors, crashes inside "
+            "saves) compared exactly with the model, events included.",
     "note": "Trusted: Lean kernel, AST translator, strace canonicalisation, 'os.replace is atomic / open(w) truncates / write "
             "appends / a torch file is loadable iff complete' (the last one is probed on every run with truncated real "
             "files), no fsync / power-loss modelling below rename, torch.save/load round trip as decode(encode s) = s, "
-            "a real enabled GradScaler needs CUDA: the harness uses a counting scaler subclass (state evolves with update()). "
-            "With gradient accumulation a checkpoint inside a window loses the accumulated gradients: the history theorem "
-            "holds for every k under AlignedHist (each resume finds a label t with (t+1) % k = 0, vacuous for k = 1) and "
-            "misaligned_resume states exactly what happens otherwise; that case is the known C16 finding resume-mid-window. "
-            "Cosine schedule: cos is an uninterpreted function; exact model comparison only for WarmupMultiStepLR with dyadic "
-            "parameters; Adam / cosine runs are compared real-vs-real bit-exactly.",
+            "a real enabled GradScaler needs CUDA: the harness uses a counting scaler subclass (state evolves with update()); "
+            "training-mode dependence of a model is represented by a deterministic stand-in (output doubled in training mode) "
+            "instead of dropout / batch norm; validation runs the real evaluate / reconstruct_volumes on a two-slice toy "
+            "volume with gc.collect() stubbed. "
+            "With gradient accumulation a checkpoint inside a window loses the accumulated gradients: the history theorems "
+            "hold for every k under AlignedHist (each resume finds a label t with (t+1) % k = 0, vacuous for k = 1) and "
+            "misaligned_resume / misaligned_resume_differs state exactly what happens otherwise; that case is the known C16 "
+            "finding resume-mid-window. Cosine schedule: cos is an uninterpreted function; exact model comparison only for "
+            "WarmupMultiStepLR with dyadic parameters; Adam / cosine runs are compared real-vs-real bit-exactly. Concurrent "
+            "writers and multi-rank runs are modelled (witness + save_to_disk guard), not executed; URLs only through a "
+            "stubbed download. RNG state is not part of a checkpoint (dropout masks after a resume differ; outside 'given the "
+            "same batches').",
     "technique": "Lean 4 proof (frames over a name->bytes directory, inductive crash prefixes, invariant over process "
-                 "histories) + AST translation bridge + strace / crash-state / training-history differential correspondence",
+                 "histories, refinement of the engine loop with validation events to the core machine) + AST translation "
+                 "bridge + strace / crash-state / API / training-history differential correspondence",
 }
 TRUSTED = [
     "Lean 4.33 kernel; axioms ⊆ {propext, Classical.choice, Quot.sound}",
-    "harness/translate/recipes/c15.py (statement table of Checkpointer.save; resume / kill-path / interval arithmetic; "
-    "scheduler closed forms over ℚ)",
+    "harness/translate/recipes/c15.py (statement table of Checkpointer.save; resume / kill-path / checkpoint / validation / log "
+    "interval arithmetic; scheduler closed forms over ℚ; 'latest' aliases; initialization chain; validation_loop tail; "
+    "structural API facts; the trainer's milestone expression)",
     "file system semantics: open('w') truncates, write appends, os.replace atomic, close changes nothing; no fsync modelling",
     "strace -f -e trace=openat,write,rename*,unlink*,close,lseek,ftruncate,pwrite64 canonicalised by basename",
     "torch.save / torch.load: decode(encode s) = s; a checkpoint file is loadable iff all its bytes were written (probed "
     "with truncated real files on every run)",
-    "optimizer.step arbitrary; GradScaler disabled on CPU (state_dict {})",
-    "the toy engine subclass and the SIGINT self-delivery (os.kill(getpid(), SIGINT) inside _do_iteration)",
+    "optimizer.step arbitrary; GradScaler disabled on CPU (state_dict {}): counting scaler subclass in the harness",
+    "the toy engine subclasses (props/c16.py ToyEngine, props/c15_engine.py EngineX), the SIGINT self-delivery "
+    "(os.kill(getpid(), SIGINT) inside _do_iteration), the simulated RuntimeError, event recording by overriding "
+    "validation_loop / write_to_logs and wrapping Checkpointer.save, gc.collect() stubbed during validation, "
+    "communication.is_main_process patched for the non-main-rank run, download_url stubbed for the URL case",
+    "ModeAux (output doubled in training mode) as the stand-in for mode-dependent layers",
 ]
 ASSUMPTIONS = [
     "batches are a function of the iteration index (sequential batch sampler supplied by the harness)",
     "a process that disappears executes nothing further; a crash inside save is a prefix of its file operations",
     "labels written to last_model.txt are decimal naturals",
+    "one writer per experiment directory (Engine.train: the main process only); an optimiser step does not change "
+    "training-mode flags (VCfg.Ok.opt)",
 ]
 RULE = ("crash states: every prefix of the traced operation list of a real save, each write cut at 0 / 1 / half / len-1 bytes, "
         "with no / a different-label / a same-label previous checkpoint, current and pinned (in-place) operation order; "
         "training histories: 6..16 iterations, checkpoint_steps 1..4, stops = disappearance / SIGINT before or after backward "
-        "/ death at 6 points of a checkpoint save; non-trivial = a crash point strictly inside save, or a history with at "
-        "least one interruption at an iteration >= 5; distinct = distinct protocol line")
+        "/ death at 6 points of a checkpoint save; engine histories (vtrain): 8..16 iterations, validation every 2..7 with or "
+        "without validation data, mode-dependent additional model, per process resume / initialization / "
+        "start_with_validation flags, RuntimeError exits, a process resuming a finished run, a restart with resume=False; "
+        "API: modules with 1..3 named parameters, DataParallel on any of the four modules, missing / extra keys, kwargs, "
+        "save_to_disk, all argument forms of load; non-trivial = a crash point strictly inside save, a history with at "
+        "least one interruption at an iteration >= 5, a load by label / 'latest'; distinct = distinct protocol line; the "
+        "write_to_logs call of log_first_training_example_and_model (iteration 0) is not an event")
 PENDING_FINDINGS: list[str] = []
 
 STRACE_SET = "openat,write,rename,renameat,renameat2,unlink,unlinkat,close,lseek,ftruncate,truncate,pwrite64,writev,link,linkat"
@@ -336,8 +379,8 @@ def apply_ops(d: str, ops, payload: bytes, upto: int, cut: int | None):
             os.replace(p, os.path.join(d, op[2]))
 
 
-def real_load_verdict(d: str) -> str:
-    """REAL Checkpointer.load('latest') into fresh objects; which state came back is read from the weights"""
+def real_load_verdict(d: str, arg="latest") -> str:
+    """REAL Checkpointer.load(arg) (default 'latest') into fresh objects; which state came back is read from the weights"""
     from direct.checkpointer import Checkpointer
     from direct.data.lr_scheduler import WarmupMultiStepLR
 
@@ -346,7 +389,7 @@ def real_load_verdict(d: str) -> str:
     s = WarmupMultiStepLR(o, milestones=[4, 9], gamma=0.5, warmup_factor=0.25, warmup_iterations=4)
     ck = Checkpointer(pathlib.Path(d), model=m, optimizer=o, lr_scheduler=s)
     try:
-        r = ck.load("latest")
+        r = ck.load(arg)
     except ValueError:
         return "err ValueError"
     except FileNotFoundError:
@@ -505,12 +548,75 @@ def correspondence(ctx: Ctx):
                "impl": (lambda a=saver, b=loader, m=mode, k=keys: real_bundle(a, b, m, k)),
                "nontrivial": len(saver) > 1 and len(loader) > 1, "bucket": "bundle/" + ["full", "only_models", "select"][mode]}
     # (iii) histories of real training processes
-    for i in range(ctx.budget(30, 400)):
+    for i in range(ctx.budget(24, 400)):
         c, stops = gen_history(rng, k=1 if i % 3 else rng.choice([2, 3]))
         yield {"line": toy.proto("train", toy.toy_groups(c, [c["ck"], 0]) + [[v for s in stops for v in s], st["table"]]),
                "impl": (lambda c=c, stops=stops: fmt_history(run_history(c, stops), st, c, stops)),
                "nontrivial": any(s[1] >= 5 for s in stops),
                "bucket": f"train/k{c['k']}/" + "+".join(sorted({["", "vanish", "kill", "crash"][s[0]] for s in stops}))}
+    yield from engine_correspondence(ctx, st)
+
+
+LOADREQ_LAST = [None, "5", "12", "7", "-1", "12\n", " 5 ", "abc", ""]
+
+
+def engine_correspondence(ctx: Ctx, st):
+    """the code around the core (Model/C15Engine.lean): load argument forms, Checkpointer API forms, Engine.train with
+    validation data / mode flags / resume / initialization / start_with_validation / RuntimeError exits, scheduler +
+    optimiser state through a real save / load, the trainer's milestones"""
+    rng = ctx.rng
+    pay = st["payloads"][0]
+    aliases = eng.alias_codes()
+    # Checkpointer.load(iteration): every argument form on materialised directories
+    reqs = [(0, 0), (1, 0), (2, -1), (2, 5), (2, 12), (2, 7), (2, 0), (3, 0), (4, 0)]
+    cases = [(txt, pres, rq) for txt in LOADREQ_LAST for pres in ("complete", "truncated", "missing") for rq in reqs]
+    fixed = [c for c in cases if c[0] in (None, "5", "12") and c[1] == "complete"]
+    for txt, present, (kind, n) in fixed + rng.sample([c for c in cases if c not in fixed], ctx.budget(30, 150)):
+        w = {"complete": len(pay), "truncated": len(pay) // 2}.get(present)
+        files = [] if w is None else [(5, 1, len(pay), w), (12, 1, len(pay), w)]
+        last = [-1] if txt is None else [ord(ch) for ch in txt]
+        yield {"line": "loadreq " + " | ".join(ints(g) for g in (aliases, last, [v for f in files for v in f], [kind, n])),
+               "impl": (lambda txt=txt, files=files, kind=kind, n=n: eng.real_loadreq(txt, files, pay, kind, n)),
+               "nontrivial": kind in (1, 2), "bucket": f"loadreq/{['none', 'latest', 'int', 'str', 'other'][kind]}/{present}"}
+    # save / load through the API: DataParallel wrappers, strict model loading, kwargs, save_to_disk, request forms
+    for _ in range(ctx.budget(60, 600)):
+        case = eng.gen_ckapi(rng)
+        hdr, sm, sa = case[0], case[1], case[2]
+        yield {"line": eng.ckapi_line(case), "impl": (lambda case=case: eng.real_ckapi(*case)),
+               "nontrivial": True,
+               "bucket": "ckapi/" + ("dp" if sm[0] or (sa and sa[0]) or case[5][0] or (case[6] and case[6][0]) else "plain")
+                         + "/" + {0: "none", 1: "latest", 2: "int", 3: "str", 4: "other", 9: "models_from_file"}[hdr[4]]
+                         + ("" if hdr[0] else "/save_to_disk=False") + ("/kwargs" if case[4] else "")}
+    # real Engine.train histories with validation data, mode-dependent additional model, initialization, swv, errors
+    chain = eng.chain_codes()
+    for i in range(ctx.budget(12, 200)):
+        c, procs, val, theta = eng.gen_vhistory(rng, k=1 if i % 4 else rng.choice([2, 3]))
+        kinds = "+".join(sorted({["finish", "vanish", "kill", "crash", "error"][p[0]] for p in procs[:-1]}))
+
+        def impl(c=c, procs=procs, val=val, theta=theta):
+            out = eng.run_vhistory(c, procs, val, theta)
+            st.setdefault("vhistories", []).append((c, procs, val, theta, out))
+            return eng.fmt_vhistory(out)
+        yield {"line": eng.vtrain_line(c, procs, val, theta, chain, st["table"]), "impl": impl,
+               "nontrivial": any(p[1] >= 5 for p in procs[:-1]),
+               "bucket": f"vtrain/k{c['k']}/" + ("val" if val[1] else "noval") + "/" + kinds
+                         + ("/init" if any(p[4] for p in procs) else "") + ("/swv" if any(p[5] for p in procs) else "")
+                         + ("/resume=False" if any(not p[3] for p in procs) else "")}
+    # scheduler + optimiser state through a real Checkpointer save / load into objects built with another learning rate
+    for _ in range(ctx.budget(16, 200)):
+        sc = toy.gen_cfg(rng)["sched"]
+        e, more = rng.randint(0, 10), rng.randint(0, 5)
+        lr2 = rng.choice([sc["base"], Fr(1, 16), Fr(3, 4)])
+        optr, schr = rng.choice([(1, 1), (1, 1), (0, 1), (1, 0)])
+        sg, ms = toy.sched_groups(sc)
+        yield {"line": "lrstate " + " | ".join(ints(g) for g in (sg[:2], sg[2:], ms, [e, more] + toy.fr_pairs([lr2]) + [optr, schr])),
+               "impl": (lambda sc=sc, e=e, more=more, lr2=lr2, optr=optr, schr=schr: eng.real_lrstate(sc, e, more, lr2, optr, schr)),
+               "nontrivial": e >= 1, "bucket": f"lrstate/opt{optr}sch{schr}"}
+    # the milestones direct/train.py computes
+    for step, total in [(5000, 500000), (1, 1), (3, 10), (4, 12), (7, 5)] + \
+            [(rng.randint(1, 9), rng.randint(0, 40)) for _ in range(ctx.budget(6, 60))]:
+        yield {"line": f"solver {step} {total}", "impl": (lambda a=step, b=total: "ok " + ints(eng.real_solver_steps(a, b))),
+               "nontrivial": total > step, "bucket": "solver_steps"}
 
 
 def _with_dir(fill) -> str:
@@ -519,13 +625,18 @@ def _with_dir(fill) -> str:
         return real_load_verdict(d)
 
 
-def _real_resumed_lrs(sc, total, e):
+def _real_resumed_lrs(sc, total, e, lr2=None):
     """lr at last_epoch 0 … total-1 of a REAL scheduler that is checkpointed (real Checkpointer.save) when its
-    last_epoch is `e`, restored into fresh objects (real load('latest')) and stepped on"""
+    last_epoch is `e`, restored into fresh objects (real load('latest'); built with learning rate `lr2` when given) and
+    stepped on"""
     from direct.checkpointer import Checkpointer
 
+    first = [True]
+
     def fresh():
-        o = torch.optim.SGD([torch.nn.Parameter(torch.zeros(1))], lr=float(sc["base"]))
+        lr = sc["base"] if first[0] or lr2 is None else lr2
+        first[0] = False
+        o = torch.optim.SGD([torch.nn.Parameter(torch.zeros(1))], lr=float(lr))
         return o, toy.make_scheduler(o, sc)
 
     o, s = fresh()
@@ -853,6 +964,12 @@ def gen_bundle(rng):
 
 
 OBSERVATIONS = [
+    "an initialization URL with a query string or fragment is downloaded under os.path.basename(url) (query included) but "
+    "looked up under Path(urlparse(url).path).name: FileNotFoundError; and the download cache is keyed by the base name only "
+    "(a different URL with the same file name silently reuses the cached file) — initialization, not resume: outside the property",
+    "scheduler.load_state_dict restores EVERY attribute (milestones, gamma, warm-up settings, base_lrs): a resumed run keeps the "
+    "checkpoint's schedule even when the new configuration says otherwise (the same for the optimiser's param_groups)",
+    "log_first_training_example_and_model (iteration 0 only) calls write_to_logs once more; not an event of the model",
     "Checkpointer.load(iteration, checkpointable_objects={name: obj}) only uses the dict's KEYS: the objects restored are "
     "self.checkpointables[name] (KeyError if the loader does not hold `name`; `model` is always restored); modelled as such "
     "(Bundle.Mode.select), compared with the real code on every run — not part of the property",
@@ -943,6 +1060,220 @@ def oracle(ctx: Ctx, deep: bool = False):
             ctx.hist["oracle/history/misaligned-skipped"] = ctx.hist.get("oracle/history/misaligned-skipped", 0) + 1
         elif bad:
             yield Violation(bad[0], bad[1], _hist_replay(c, stops))
+    yield from engine_oracle(ctx, st, deep)
+
+
+# --------------------------------------------------------------------------------------------------
+# the property on the real engine / Checkpointer around the core
+def check_vhistory(c, procs, val, theta, out=None):
+    """processes that all resume (same `initialization` flag): every process is on the trajectory of the uninterrupted
+    run — which, with an initialization checkpoint, is the fresh run started from the file's model weights — including the
+    training-mode flags of the models; bit for bit"""
+    out = out if out is not None else eng.run_vhistory(c, procs, val, theta)
+    if any("failed" not in r and r["start"] % c["k"] != 0 for r in out):
+        return "misaligned"
+    d = c["d"]
+    ini = bool(procs[0][4])
+    ref_c = dict(c, w0=[float(v) for v in theta[:d]]) if ini else c
+    with toy.scratch_dir() as tmp:
+        full = eng.run_vprocess(tmp, ref_c, resume=False, val_steps=val[0], has_val=val[1], aux0=theta[d:] if ini else None)
+    kinds = "+".join(sorted({["finish", "vanish", "kill", "crash", "error"][p[0]] for p in procs[:-1]})) or "finish"
+    for i, r in enumerate(out):
+        if "failed" in r:
+            return ("resume-load-fails", f"process {i} of {procs} cannot start: {r['detail']}")
+        for off, rec in enumerate(r["records"]):
+            it = r["start"] + off
+            if it >= len(full["records"]) or rec != full["records"][it]:
+                ref = full["records"][it] if it < len(full["records"]) else None
+                key = "validation-leaves-aux-models-in-eval" if ref is not None and rec[2] != ref[2] else \
+                    ("initialization-restores-training-state" if ini and r["start"] == 0 else f"resume-differs-{kinds}")
+                return (key, f"processes {procs} (validation every {val[0]}, data={val[1]}, initialization={ini}): iteration "
+                        f"{it} of process {i} (started at {r['start']}) gives (w, lr, aux.training, model.training)={rec}; "
+                        f"the uninterrupted run {ref}")
+    last = out[-1]
+    if last["w"] != full["w"] or last["last_epoch"] != full["last_epoch"] or not _state_equal(last["opt_state"], full["opt_state"]) \
+            or last["scaler"] != full["scaler"] or last["flag"] != full["flag"]:
+        return (f"resume-differs-{kinds}", f"after processes {procs} the final state differs from the uninterrupted run: "
+                f"w {last['w']} vs {full['w']}, last_epoch {last['last_epoch']} vs {full['last_epoch']}, scaler "
+                f"{last['scaler']} vs {full['scaler']}, aux.training {last['flag']} vs {full['flag']}")
+    return None
+
+
+def _vh_replay(c, procs, val, theta):
+    r = toy._cfg_replay(c)
+    r.update({"op": "vhistory", "procs": procs, "val": list(val), "theta": [str(v) for v in theta]})
+    return r
+
+
+def api_checks(rng):
+    """[(bucket, key, what, replay-case)] for the Checkpointer API stated directly on the real code; what is None when fine"""
+    from direct.checkpointer import Checkpointer
+
+    out = []
+    P = eng.PMod
+    # DataParallel / plain in every combination: save → load restores the saver's values under the loader's names
+    for sdp, ldp, adp, bdp in [(a, b, x, y) for a in (0, 1) for b in (0, 1) for x in (0, 1) for y in (0, 1)]:
+        names = sorted(rng.sample(range(4), rng.randint(1, 3)))
+        vals = [(n, rng.randint(1, 9)) for n in names]
+        avals = [(n, rng.randint(1, 9)) for n in names[:2]]
+        case = {"kind": "dp", "flags": [sdp, ldp, adp, bdp], "vals": vals, "avals": avals}
+        out.append(("dp", "dataparallel-roundtrip", _api_case(case), case))
+    for case in ({"kind": "missing"}, {"kind": "save_to_disk"}, {"kind": "forms"}, {"kind": "models_only"}, {"kind": "rank"},
+                 {"kind": "sched_keys"}, {"kind": "url"}):
+        out.append((case["kind"], {"missing": "partial-model-load", "save_to_disk": "save-to-disk-false-writes",
+                                   "forms": "load-argument-forms", "models_only": "initialization-restores-training-state",
+                                   "rank": "non-main-process-writes", "sched_keys": "scheduler-state-incomplete",
+                                   "url": "initialization-from-url"}[case["kind"]],
+                    _api_case(case), case))
+    return out
+
+
+def _api_case(case):
+    """returns a description of the violation, or None"""
+    from direct.checkpointer import Checkpointer
+
+    P, wrap = eng.PMod, eng._wrap
+    try:
+        with toy.scratch_dir() as d:
+            dp = pathlib.Path(d)
+            if case["kind"] == "dp":
+                sdp, ldp, adp, bdp = case["flags"]
+                vals, avals = [tuple(v) for v in case["vals"]], [tuple(v) for v in case["avals"]]
+                Checkpointer(dp, model=wrap(P(vals), sdp), sensitivity_model=wrap(P(avals), adp)).save(2)
+                m, a = P([(n, 0) for n, _ in vals]), P([(n, 0) for n, _ in avals])
+                Checkpointer(dp, model=wrap(m, ldp), sensitivity_model=wrap(a, bdp)).load("latest")
+                got = m.values([n for n, _ in vals]), a.values([n for n, _ in avals])
+                want = [v for _, v in vals], [v for _, v in avals]
+                return None if got == want else f"wrappers (saver model/aux, loader model/aux) = {case['flags']}: loaded {got}, saved {want}"
+            if case["kind"] == "missing":
+                Checkpointer(dp, model=P([(0, 5)]), sensitivity_model=P([(0, 6)])).save(2)
+                for kw in ({"model": P([(0, 1), (1, 1)]), "sensitivity_model": P([(0, 1)])},
+                           {"model": P([(0, 1)]), "sensitivity_model": P([(0, 1), (2, 1)])}):
+                    try:
+                        Checkpointer(dp, **kw).load(2)
+                    except Exception:  # noqa: BLE001
+                        continue
+                    return "a module with a parameter that is not in the checkpoint was loaded without an error (partial load)"
+                return None
+            if case["kind"] == "save_to_disk":
+                Checkpointer(dp, save_to_disk=False, model=P([(0, 5)])).save(2)
+                left = sorted(os.listdir(d))
+                return None if not left else f"Checkpointer(save_to_disk=False).save wrote {left}"
+            if case["kind"] == "forms":
+                m0 = P([(0, 5)])
+                Checkpointer(dp, model=m0).save(4)
+                Checkpointer(dp, model=P([(0, 7)])).save(9)
+                res = {}
+                for name, arg in (("latest", "latest"), ("-1", -1), ("9", 9), ("4", 4), ("None", None)):
+                    m = P([(0, 1)])
+                    ck = Checkpointer(dp, model=m)
+                    r = ck.load(arg)
+                    res[name] = (r.get("iteration") if r else None, m.values([0])[0], ck.checkpoint_loaded)
+                want = {"latest": (9, 7, 9), "-1": (9, 7, 9), "9": (9, 7, 9), "4": (4, 5, 4), "None": (None, 1, None)}
+                if res != want:
+                    return f"load argument forms (iteration, weight, checkpoint_loaded): {res}, expected {want}"
+                for bad in ("newest", 2.5):
+                    try:
+                        Checkpointer(dp, model=P([(0, 1)])).load(bad)
+                    except ValueError:
+                        continue
+                    except Exception as e:  # noqa: BLE001
+                        return f"load({bad!r}) raises {err_name(e)} instead of ValueError"
+                    return f"load({bad!r}) is accepted"
+                return None
+            if case["kind"] == "models_only":
+                so = {3: make_obj(3, 4), 4: make_obj(4, 6), 5: make_obj(5, 8)}
+                Checkpointer(dp, model=P([(0, 5)]), sensitivity_model=P([(0, 6)]), optimizer=so[3], lr_scheduler=so[4],
+                             scaler=so[5]).save(11)
+                lo = {3: make_obj(3, 1), 4: make_obj(4, 2), 5: make_obj(5, 3)}
+                m, a = P([(0, 1)]), P([(0, 1)])
+                Checkpointer(dp, model=m, sensitivity_model=a, optimizer=lo[3], lr_scheduler=lo[4],
+                             scaler=lo[5]).load_models_from_file(dp / "model_11.pt")
+                got = (m.values([0])[0], a.values([0])[0], [read_id(k, lo[k]) for k in (3, 4, 5)])
+                return None if got == (5, 6, [1, 2, 3]) else \
+                    f"load_models_from_file: (model, additional model, [optimizer, lr_scheduler, scaler]) = {got}, expected (5, 6, [1, 2, 3])"
+            if case["kind"] == "url":
+                # an initialization checkpoint given as a URL: fetched into the download cache, then only the models are loaded
+                import direct.checkpointer as CK
+
+                src, cache = dp / "remote", dp / "cache"
+                src.mkdir()
+                Checkpointer(src, model=P([(0, 5)]), optimizer=make_obj(3, 4)).save(11)
+                real_dl, real_dir = CK.download_url, CK.DIRECT_MODEL_DOWNLOAD_DIR
+
+                def fake_download(url, root, **kw):
+                    os.makedirs(root, exist_ok=True)
+                    shutil.copy(src / os.path.basename(url), pathlib.Path(root) / os.path.basename(url))
+                CK.download_url, CK.DIRECT_MODEL_DOWNLOAD_DIR = fake_download, cache
+                try:
+                    m, o = P([(0, 1)]), make_obj(3, 2)
+                    Checkpointer(dp / "exp", model=m, optimizer=o).load_models_from_file("https://example.org/zoo/v1/model_11.pt")
+                finally:
+                    CK.download_url, CK.DIRECT_MODEL_DOWNLOAD_DIR = real_dl, real_dir
+                got = (m.values([0])[0], read_id(3, o))
+                return None if got == (5, 2) else f"load_models_from_file(URL): (model, optimizer) = {got}, expected (5, 2)"
+            if case["kind"] == "rank":
+                c = toy.gen_cfg(random.Random(3), k=1, T=8, bs=1)
+                c["ck"] = 2
+                r = eng.run_vprocess(d, c, resume=True, main_process=False, has_val=False)
+                left = sorted(f for f in os.listdir(d) if f.startswith("model_") or f.startswith("last_model"))
+                return None if not left and len(r["records"]) == 8 else f"a process that is not the main process wrote {left}"
+            if case["kind"] == "sched_keys":
+                for kind in ("multistep", "cosine"):
+                    o = torch.optim.SGD([torch.nn.Parameter(torch.zeros(1))], lr=0.5)
+                    sc = {"kind": kind, "milestones": [2], "gamma": 0.5, "wf": 0.5, "warmup_iters": 2, "method": "linear", "max_iters": 9}
+                    keys = set(toy.make_scheduler(o, sc).state_dict())
+                    if not eng.SCHED_STATE_KEYS[kind] <= keys or "optimizer" in keys:
+                        return f"{kind} scheduler state_dict has keys {sorted(keys)}"
+                    if not {"lr", "initial_lr"} <= set(o.state_dict()["param_groups"][0]):
+                        return "optimizer state_dict lacks lr / initial_lr"
+                return None
+    except Exception as e:  # noqa: BLE001
+        return f"raises {err_name(e)}: {e}"[:300]
+    return None
+
+
+def engine_oracle(ctx: Ctx, st, deep: bool):
+    rng = ctx.rng
+    # (d) histories on the real engine with validation data, mode-dependent additional model, swv, initialization
+    hs = [(c, procs, val, theta, out) for (c, procs, val, theta, out) in st.get("vhistories", [])
+          if all(p[3] for p in procs) and len({p[4] for p in procs}) == 1]
+    for i in range(ctx.budget(6, 120) + (30 if deep else 0)):
+        c, procs, val, theta = eng.gen_vhistory(rng, k=1 if i % 3 else 2)
+        ini = int(rng.random() < 0.4)
+        procs = [[p[0], p[1], p[2], 1, ini, p[5]] for p in procs if p[3]]
+        c["opt"] = [("sgd", Fr(1, 2)), ("adam",), ("sgd", Fr(0))][i % 3]
+        if i % 4 == 3:
+            c["sched"] = dict(c["sched"], kind="cosine", max_iters=c["T"], gamma=Fr(1, 10), wf=Fr(1, 1000))
+        hs.append((c, procs, (val[0], True if i % 2 == 0 else val[1]), theta, None))
+    for c, procs, val, theta, out in hs:
+        ctx.count(("vhistory", toy.proto("h", toy.toy_groups(c, [c["ck"]])), str(c["opt"]), str(procs), str(val)),
+                  any(p[1] >= 5 for p in procs[:-1]),
+                  bucket=f"oracle/vhistory/k{c['k']}/{c['opt'][0]}/" + ("val" if val[1] else "noval") +
+                         ("/init" if procs[0][4] else "") + ("/swv" if any(p[5] for p in procs) else ""))
+        bad = check_vhistory(c, procs, val, theta, out)
+        if bad == "misaligned":
+            ctx.hist["oracle/vhistory/misaligned-skipped"] = ctx.hist.get("oracle/vhistory/misaligned-skipped", 0) + 1
+        elif bad:
+            yield Violation(bad[0], bad[1], _vh_replay(c, procs, val, theta))
+    # (e) the Checkpointer API
+    for bucket, key, what, case in api_checks(rng):
+        ctx.count(("api", str(case)), True, bucket="oracle/api/" + bucket)
+        if what:
+            yield Violation(key, what, {"op": "api", "case": case})
+    # (f) scheduler resumed into objects built with another learning rate = uninterrupted, bit for bit
+    for i in range(ctx.budget(6, 60)):
+        total = rng.randint(4, 24)
+        sc = gen_sched(rng, total, dyadic=bool(i % 2))
+        e = rng.randint(1, total)
+        lr2 = rng.choice([0.75, 0.0625, 2.0])
+        ctx.count(("lr-other-constructor", i, total, e), True, bucket="oracle/lr-resume-other-constructor-lr/" + sc["kind"])
+        got, ref = _real_resumed_lrs(sc, total, e, lr2), _real_resumed_lrs(sc, total, 0)
+        if got != ref:
+            yield Violation("lr-resume-differs", f"{sc['kind']} scheduler checkpointed at last_epoch {e} and restored into objects "
+                            f"built with lr {lr2}: learning rates {got}, uninterrupted {ref}",
+                            {"op": "lr2", "sched": {k: (str(v) if isinstance(v, Fr) else v) for k, v in sc.items()},
+                             "total": total, "e": e, "lr2": lr2})
 
 
 def replay(rep: dict) -> bool:
@@ -959,4 +1290,12 @@ def replay(rep: dict) -> bool:
                 return v not in rep["allowed"]
     if rep.get("op") == "roundtrip":
         return bool(_roundtrip_case(random.Random(rep["rng_seed"]), rep["opt"], rep["sched"]))
+    if rep.get("op") == "vhistory":
+        c = toy._cfg_from_replay(rep)
+        return check_vhistory(c, rep["procs"], tuple(rep["val"]), [Fr(v) for v in rep["theta"]]) not in (None, "misaligned")
+    if rep.get("op") == "api":
+        return _api_case(rep["case"]) is not None
+    if rep.get("op") == "lr2":
+        sc = {k: (Fr(v) if k in ("gamma", "wf", "base") else v) for k, v in rep["sched"].items()}
+        return _real_resumed_lrs(sc, rep["total"], rep["e"], rep["lr2"]) != _real_resumed_lrs(sc, rep["total"], 0)
     return True
